@@ -643,6 +643,15 @@ func (s *Stream) ProcessSync(data map[string]any) (map[string]any, error) {
 func (s *Stream) enrichData(data map[string]any) (dataMap map[string]any, keep bool, err error) {
 	dataMap = data
 	if !s.hasJoin() {
+		// The row map belongs to the caller of Emit/EmitSync. Analytic evaluation and
+		// function-expression group keys write derived values into the row they work
+		// on, so give them a private (shallow) copy; other queries keep the zero-copy path.
+		if s.writesIntoRow() {
+			dataMap = make(map[string]any, len(data)+4)
+			for k, v := range data {
+				dataMap[k] = v
+			}
+		}
 		return dataMap, true, nil
 	}
 	wm, k, jerr := s.enrichJoin(data)
@@ -653,6 +662,21 @@ func (s *Stream) enrichData(data map[string]any) (dataMap map[string]any, keep b
 		return dataMap, false, nil // INNER JOIN 无匹配：丢弃
 	}
 	return wm, true, nil
+}
+
+// writesIntoRow reports whether processing adds keys to the row map it is given:
+// analytic results/placeholders (evalAnalytic) and evaluated function-expression
+// group keys (injectGroupKeyExprs).
+func (s *Stream) writesIntoRow() bool {
+	if len(s.config.AnalyticFields) > 0 || len(s.config.WhereAnalyticCalls) > 0 {
+		return true
+	}
+	for _, gf := range s.config.GroupFields {
+		if strings.Contains(gf, "(") {
+			return true
+		}
+	}
+	return false
 }
 
 // applyWhereAndAnalytic 按 WHERE 是否引用分析函数决定求值序，并应用 WHERE 过滤。
